@@ -149,22 +149,22 @@ func (o outcome) apply() error {
 // ---------------------------------------------------------------------------------------------
 
 type item struct {
-	id      string
-	kind    string
-	outs    []outcome
-	runs    int32
-	onstop  bool
-	free    bool // burst item: the function ends at once
-	entered chan int
-	release chan struct{}
-	done    chan error // blocking variants: the returned error
-	http    chan int   // api kinds: the response status
-	task    *modules.Task
+	id         string
+	kind       string
+	outs       []outcome
+	runs       int32
+	onstop     bool
+	free       bool // burst item: the function ends at once
+	entered    chan int
+	release    chan struct{}
+	done       chan error // blocking variants: the returned error
+	http       chan int   // api kinds: the response status
+	task       *modules.Task
 	afterWrite bool
-	lastOut outcome
-	busy    bool // task: queued or running
-	held    bool // inside its user function, waiting for `finish`
-	mu      sync.Mutex
+	lastOut    outcome
+	busy       bool // task: queued or running
+	held       bool // inside its user function, waiting for `finish`
+	mu         sync.Mutex
 }
 
 // body is the managed user function of every item kind.
@@ -200,9 +200,9 @@ func (it *item) body(ctx context.Context) error {
 }
 
 type modDecl struct {
-	name             string
+	name              string
 	prep, start, stop string
-	m                *modules.Module
+	m                 *modules.Module
 }
 
 type child struct {
@@ -269,7 +269,10 @@ func ctrlFn(tok string) (func() error, bool) {
 	return func() error { return o.apply() }, true
 }
 
-type cnt struct{ w, t, m, g int; c bool }
+type cnt struct {
+	w, t, m, g int
+	c          bool
+}
 
 func (k cnt) String() string {
 	cc := 0
@@ -618,13 +621,21 @@ func (c *child) do(line string) string {
 		if len(f) != 1 {
 			return "bad-op"
 		}
+		// one consistent snapshot: work that other goroutines start later (e.g. a "notify of change" worker
+		// whose goroutine has not run yet) is not part of "everything so far has finished"
 		zero := cnt{}
-		waitUntil(settleTimeout, func() bool { return c.counters() == zero && (c.apiMode || c.othersClean()) })
+		var k cnt
+		clean := true
+		waitUntil(settleTimeout, func() bool {
+			k = c.counters()
+			clean = c.apiMode || c.othersClean()
+			return k == zero && clean
+		})
 		oc := "clean"
-		if !c.apiMode && !c.othersClean() {
+		if !clean {
 			oc = "dirty"
 		}
-		return fmt.Sprintf("cnt=%s others=%s", c.counters(), oc)
+		return fmt.Sprintf("cnt=%s others=%s", k, oc)
 
 	case "spawn": // spawn <id> <kind> <outcomes> [onstop|afterwrite]
 		if len(f) < 4 || len(f) > 5 || !c.startOK || c.items[f[1]] != nil || !c.online(c.subject) {
@@ -1027,4 +1038,3 @@ func (c *child) finish(it *item) string {
 	return fmt.Sprintf("finish ret=%s http=%s next=%s exec=%s reps=%s last=%s cnt=%s", ret, httpS, next, exec,
 		c.drain(), repStr(modules.GetLastReportedError()), c.counters())
 }
-
